@@ -1,4 +1,9 @@
+#[cfg(not(goml_verif))]
 use std::{collections::HashMap, path::Path, sync::OnceLock};
+#[cfg(goml_verif)]
+use std::{path::Path, sync::OnceLock};
+#[cfg(goml_verif)]
+use crate::verif_hash::HashMap;
 
 use crate::derive;
 use ::ast::{ast, lower};
